@@ -77,6 +77,21 @@ def run_test(ctx, binp, test, out, env=None, timeout=7200):
     return outp
 
 
+def validate(ctx, *a, **kw):
+    """validate_trace_sharded, retried once with smaller parts when a TLC process disappears
+    (killed under memory pressure on the shared machine) -- an infrastructure problem, never a verdict."""
+    try:
+        return ctx.validate_trace_sharded(*a, **kw)
+    except vk.Inconclusive as e:
+        if "consumed ?" not in str(e) and "resource failure" not in str(e):
+            raise
+        ctx.log("trace validation failed (%s); retrying once with smaller parts" % e)
+        kw["shards"] = kw.get("shards", 8) * 2
+        kw["name"] = kw.get("name", "tlcs") + "_retry"
+        kw["heap"] = "2g"
+        return ctx.validate_trace_sharded(*a, **kw)
+
+
 def run(ctx):
     # ---- M + R: the input space
     res = ctx.model_check("Rewrite", "Rewrite_mc.cfg", name="tlc_gen", timeout=7200, workers=4, defines={
@@ -133,7 +148,8 @@ def run(ctx):
                     out.write(ln)
                     nlines += 1
                 origin_bounds.append((first, nlines, name))
-    acc, rej = ctx.validate_trace_sharded(
+    acc, rej = validate(
+        ctx,
         "Trace_Rewrite", "Trace_Rewrite.cfg", merged, header_lines=1, shards=8, name="tlcs", timeout=14400,
         group_start=lambda ln: '"ev":"shard"' in ln or '"back":0,' in ln)
 
